@@ -34,6 +34,11 @@ def obligations():
         Obl("C07.indices.chi1", "xh", H, "chi1_indices", [D + "_indices_chi", D + "indices_chi1", D + "_atom_sequence"], "one residue with every presence pattern of 7 side-chain atom names next to a fixed residue",
             "chi1 rows = every (residue, table row) match, ordered by residue", 600),
         Obl("C07.indices.chi2", "xh", H, "chi2_indices", [D + "_indices_chi", D + "indices_chi2", D + "_atom_sequence"], "same for the chi2 table", "chi2 rows likewise", 600),
+    ] + [
+        Obl(f"C07.indices.chi{w}", "xh", H, "chi345_indices", [D + "_indices_chi", D + f"indices_chi{w}", D + "_atom_sequence"], f"same for the chi{w} table (7 atom names, every presence pattern)",
+            f"chi{w} rows = every (residue, documented table row) match, ordered by residue, columns in table order", 600, pre=f"which == {w}")
+        for w in (3, 4, 5)
+    ] + [
         Obl("C07.reference_paths", "xh", H, "reference_paths", ["mdtraj.geometry.angle._angle", "mdtraj.geometry.dihedral._dihedral"], "opt=False paths; periodic flag as Python or numpy bool; two index rows incl. repeated / reversed atoms",
             "every bond vector is requested with the caller's periodic flag for the right atom pair; the value is acos / atan2 of the textbook expression of those vectors", 200),
         Obl("C07.torsions_after_edit", "xh", H, "torsions_after_edit", ["mdtraj.geometry.dihedral.indices_phi/psi/omega/chi1", "_construct_atom_dict"], "query, rename / delete an atom in place, query again (with and without a first query)",
